@@ -865,6 +865,20 @@ func Apply(ctx context.Context, repo gitstore.Storer, signRSLEntry bool) error {
 		return fmt.Errorf("staged policy is invalid: %w", err)
 	}
 
+	if !policyTip.IsZero() && !policyStagingTip.Equal(policyTip) {
+		// The staged state replaces the currently applied policy: its root
+		// of trust must be signed by the current root principals and its
+		// metadata must not roll back, exactly as every verifier will later
+		// require of the corresponding policy entry
+		currentState, err := LoadCurrentState(ctx, repo, PolicyRef)
+		if err != nil {
+			return fmt.Errorf("failed to load current policy: %w", err)
+		}
+		if err := currentState.VerifyNewState(ctx, state); err != nil {
+			return fmt.Errorf("staged policy is not a valid successor of the current policy: %w", err)
+		}
+	}
+
 	// Update the reference for the base to point to the new commit
 	if err := repo.SetReference(PolicyRef, policyStagingTip); err != nil {
 		return fmt.Errorf("failed to set new policy reference: %w", err)
